@@ -611,11 +611,12 @@ func parallel(n int, f func(i int)) {
 }
 
 func (e *env) c06() {
+	e.c06corpus() // regression corpus first
 	K := e.c.Pick(300, 4000)
 	nSweep := e.c.Pick(40, 120)
 	e.collectRoots(e.c.Pick(40, 120))
 	e.rootHistogram()
-	e.r.Rule = "one run = (root given as FEN + played moves, depth 1..6, hard node budget k, soft node limit, soft time, TT size in {32000 B, 64 KiB, 1 MiB}, fresh or warmed tables, stop channel absent/open/closed before start/closed at a random instant); sweep: EVERY k in 0..K on each sweep root; asserted on the real search: move is null or in the implementation's legal list and in the Lean rule-book legal list, null only if the root is final, completed search on a final root gives (null, 0 | -Inf), deep board snapshot identical, node counter <= budget, second search on the same instance again satisfies all of it; plus reactive `go depth|nodes|movetime <arbitrary token>` sessions through the in-process uci.Driver. non-trivial = run that was cut short by the budget/stop (abort path taken) or whose root is final/near-draw/in check/single-reply; distinct by (root, limits, tt, warm-up)"
+	e.r.Rule = "one run = (root given as FEN + played moves, depth 1..6, hard node budget k, soft node limit, soft time, TT size in {32000 B, 64 KiB, 1 MiB}, fresh or warmed tables, stop channel absent/open/closed before start/closed at a random instant); sweep: EVERY k in 0..K on each sweep root; asserted on the real search: move is null or in the implementation's legal list and in the Lean rule-book legal list, null only if the root is final, completed search on a final root gives (null, 0 | -Inf), deep board snapshot identical, node counter <= budget, second search on the same instance again satisfies all of it; plus HISTORIES on one instance (regression corpus first: D8; then for roots with 1..3 replies, in check and not: a search cut short on every successor at hard budget k for EVERY k in 0..40 or by the stop channel, optionally on the root itself and two plies on, followed by a depth 1..3 search of the root, on which the same clauses are asserted); plus reactive `go depth|nodes|movetime <arbitrary token>` sessions through the in-process uci.Driver. non-trivial = run that was cut short by the budget/stop (abort path taken) or whose root is final/near-draw/in check/single-reply; distinct by (root, limits, tt, warm-up)"
 	rng := e.c.Rng
 	var jobs []*job
 	sweepRoots := e.roots
@@ -702,7 +703,251 @@ func (e *env) c06() {
 		}
 	}
 	e.r.Sample(map[string]any{"ops": jobs[len(jobs)/2].ops()}, 3)
+	e.c06histories()
 	e.c06uci()
+}
+
+// ---------------------------------------------------------------------------------------------
+// C06 on histories: several searches on ONE engine instance (tables carried over), the earlier ones
+// cut short; the C06 clauses are asserted on the last one.  D8 (an aborted quiescence child left a
+// LowerBound of 11000 = -Inv in the table; `go depth 1` on the predecessor then answered the null
+// move on a non-final root) is the first corpus entry.
+
+type hstep struct {
+	rt *root
+	l  limits
+}
+
+type history struct {
+	tt  int
+	pre []hstep
+	rt  *root
+	l   limits
+	tag string
+}
+
+func (h *history) ops() []string {
+	ops := []string{fmt.Sprintf("new tt=%d", h.tt)}
+	for _, p := range h.pre {
+		ops = append(ops, p.rt.position(), p.l.String())
+	}
+	return append(ops, h.rt.position(), h.l.String())
+}
+
+// runHistory plays the history on a fresh instance and asserts C06 on the last search; it returns
+// the number of searches performed and whether one of the earlier searches was cut short.
+func (e *env) runHistory(h *history) (evals int, preAborted bool) {
+	s := search.New(h.tt)
+	for _, p := range h.pre {
+		b := p.rt.build()
+		if b == nil {
+			panic("history: unusable predecessor " + p.rt.position())
+		}
+		oc := run(s, b, p.l, nil)
+		evals++
+		if oc.panicked != "" {
+			e.fail(common.Mismatch{Property: "C06", Kind: "failing-input", Ops: h.ops(), Impl: oc.panicked,
+				Note: "an earlier search of the history panicked: " + p.rt.position() + " " + p.l.String()})
+			return
+		}
+		if infos, err := parseInfos(oc.out); err == nil && (aborted(infos) || p.l.stop == 2) {
+			preAborted = true
+		}
+	}
+	b := h.rt.build()
+	before := implutil.Dump(b)
+	oc := run(s, b, h.l, nil)
+	evals++
+	infos, perr := parseInfos(oc.out)
+	completed := perr == nil && !aborted(infos) && h.l.stop != 2
+	if note := checkResult(h.rt, oc, completed); note != "" {
+		e.fail(common.Mismatch{Property: "C06", Kind: "failing-input", Ops: h.ops(),
+			Impl: fmt.Sprintf("score=%d move=%s ponder=%s nodes=%d", oc.score, oc.mv, oc.pm, oc.nodes),
+			Spec: "legal=" + implutil.MovesStr(h.rt.spec), Note: "last search of a history on one instance: " + note})
+	}
+	if after := implutil.Dump(b); after != before {
+		e.fail(common.Mismatch{Property: "C06", Kind: "failing-input", Ops: h.ops(), Impl: after, Spec: before,
+			Note: "position object differs after the last search of a history"})
+	}
+	return
+}
+
+// successor is the root reached from rt by m, given the way a GUI gives it (position + moves).
+func successor(rt *root, m move.Move) *root {
+	ms := append(append([]string{}, rt.moves...), m.String())
+	return &root{name: rt.name + "+" + m.String(), fen: rt.fen, moves: ms}
+}
+
+// corpusHistories are the regression cases; they run before everything else in the suite.
+func (e *env) corpusHistories() []*history {
+	mk := func(name, fen string) *root {
+		rt := &root{name: name, fen: fen}
+		if !e.prepare(rt) {
+			panic("corpus root rejected: " + name + " " + fen)
+		}
+		return rt
+	}
+	d8succ := mk("D8-successor", "3r3b/p7/1p3p2/1NPp1k2/1n4p1/P3R1K1/2P5/8 w - - 0 47")
+	d8 := mk("D8-single-reply", "3r3b/p7/1p3p2/1NPpkP2/1n4p1/P3R1K1/2P5/8 b - - 4 46")
+	d8b := mk("D8-two-replies", "r3kr2/p6p/1Rp3n1/1pPppb1B/P2b3P/1NK5/1P1B3N/R3Q3 w - - 2 33")
+	hs := []*history{
+		// the D8 history: the successor searched with a budget of one node, then the root to depth 1
+		{tt: 1 << 20, tag: "corpus", pre: []hstep{{d8succ, limits{depth: 64, nodes: 1}}}, rt: d8, l: limits{depth: 1, nodes: -1}},
+		{tt: 32000, tag: "corpus", pre: []hstep{{d8succ, limits{depth: 64, nodes: 1}}}, rt: d8, l: limits{depth: 1, nodes: -1}},
+	}
+	// the same with every successor of a two-reply root poisoned
+	h := &history{tt: 1 << 20, tag: "corpus", rt: d8b, l: limits{depth: 1, nodes: -1}}
+	for _, m := range d8b.legal {
+		h.pre = append(h.pre, hstep{successor(d8b, m), limits{depth: 64, nodes: 1}})
+	}
+	hs = append(hs, h)
+	// D9: the static evaluation left the mate band (nine queens against a bare king: -10434); the
+	// first search still found the single reply, the second one on the same instance answered the
+	// null move on this non-final root.  No abort is involved.
+	d9 := mk("D9-nine-queens", "3k4/8/8/8/8/3K4/QQQQQQQQ/Q7 b - - 1 1")
+	d9b := mk("D9-six-queens-and-pieces", "3k4/8/8/8/8/8/QQQQQQ2/RNBQKBNR b - - 1 1")
+	for _, rt := range []*root{d9, d9b} {
+		hs = append(hs,
+			&history{tt: 1 << 20, tag: "corpus", pre: []hstep{{rt, limits{depth: 1, nodes: -1}}}, rt: rt, l: limits{depth: 3, nodes: -1}},
+			&history{tt: 32000, tag: "corpus", pre: []hstep{{rt, limits{depth: 1, nodes: -1}}}, rt: rt, l: limits{depth: 1, nodes: -1}})
+	}
+	return hs
+}
+
+func (e *env) c06corpus() {
+	for _, h := range e.corpusHistories() {
+		n, _ := e.runHistory(h)
+		e.r.Evaluations += n
+		e.r.Count("history:corpus", 1)
+		e.r.Nontrivial(strings.Join(h.ops(), "|"))
+	}
+}
+
+// fewReplyRoots collects non-final valid roots with one to three playable moves (in check and not)
+// from the shared stream and from random play-outs of its positions.
+func (e *env) fewReplyRoots(n int) []*root {
+	var out []*root
+	seen := map[string]bool{}
+	quota := [4]int{0, n - 2*(n/3), n / 3, n / 3} // by number of replies: single-reply roots get the largest share
+	add := func(name, fen string, replies int) {
+		if seen[fen] || quota[replies] == 0 {
+			return
+		}
+		seen[fen] = true
+		rt := &root{name: name, fen: fen}
+		if e.prepare(rt) && !rt.final && len(rt.legal) == replies {
+			out = append(out, rt)
+			quota[replies]--
+		}
+	}
+	for _, rt := range e.roots {
+		if k := len(rt.legal); !rt.final && k >= 1 && k <= 3 && quota[k] > 0 {
+			seen[rt.key] = true
+			out = append(out, rt)
+			quota[k]--
+		}
+	}
+	st := implutil.NewStream(e.c)
+	for tries := 0; len(out) < n && tries < 400*n; tries++ {
+		fen, _ := st.Next()
+		b, err := board.FromFEN(fen)
+		if err != nil || b.InvalidPieceCount() {
+			continue
+		}
+		for ply := 0; ply < 60; ply++ {
+			l := implutil.Legal(b)
+			if len(l) == 0 || b.FiftyCnt >= 99 {
+				break
+			}
+			if len(l) <= 3 {
+				add("few-reply", b.FEN(), len(l))
+			}
+			b.MakeMove(l[e.c.Rng.IntN(len(l))])
+		}
+	}
+	return out
+}
+
+// c06histories: for roots P with few replies, cut a search short on EVERY successor P' (hard budget
+// k for every k in 0..40, or the stop channel closed before the start / after a few spins), then
+// search P itself to depth 1..3 on the same instance.  Variants: the aborted searches run on P
+// itself, or on P and its successors.
+func (e *env) c06histories() {
+	roots := e.fewReplyRoots(e.c.Pick(300, 1500))
+	rng := e.c.Rng
+	var hs []*history
+	for ri, rt := range roots {
+		e.r.Count("history:roots", 1)
+		if rt.inCheck {
+			e.r.Count("history:roots-in-check", 1)
+		}
+		e.r.Count(fmt.Sprintf("history:roots-%d-replies", len(rt.legal)), 1)
+		for k := 0; k <= 40; k++ {
+			for d := 1; d <= 3; d++ {
+				h := &history{tt: ttSizes[(k+ri+d)%3], rt: rt, tag: "succ-budget", l: limits{depth: d, nodes: -1}}
+				for _, m := range rt.legal {
+					h.pre = append(h.pre, hstep{successor(rt, m), limits{depth: 1 + rng.IntN(6), nodes: k}})
+				}
+				hs = append(hs, h)
+			}
+		}
+		for v := 0; v < e.c.Pick(9, 30); v++ {
+			h := &history{tt: ttSizes[rng.IntN(3)], rt: rt, l: limits{depth: 1 + v%3, nodes: -1}}
+			cut := func() limits {
+				switch rng.IntN(3) {
+				case 0:
+					return limits{depth: 2 + rng.IntN(4), nodes: -1, stop: 2}
+				case 1:
+					return limits{depth: 4 + rng.IntN(3), nodes: 20000, stop: 3, stopSpin: rng.IntN(20000)}
+				}
+				return limits{depth: 1 + rng.IntN(6), nodes: rng.IntN(400)}
+			}
+			switch v % 3 {
+			case 0:
+				h.tag = "succ-stop"
+				for _, m := range rt.legal {
+					h.pre = append(h.pre, hstep{successor(rt, m), cut()})
+				}
+			case 1:
+				h.tag = "self"
+				h.pre = append(h.pre, hstep{rt, cut()})
+			case 2:
+				h.tag = "self+succ"
+				h.pre = append(h.pre, hstep{rt, cut()})
+				for _, m := range rt.legal {
+					h.pre = append(h.pre, hstep{successor(rt, m), cut()})
+					// and the positions two plies on, where the root's side moves again
+					if sb := successor(rt, m).build(); sb != nil {
+						if l2 := implutil.Legal(sb); len(l2) > 0 {
+							h.pre = append(h.pre, hstep{successor(successor(rt, m), l2[rng.IntN(len(l2))]), cut()})
+						}
+					}
+				}
+			}
+			hs = append(hs, h)
+		}
+	}
+	var evals, cutShort atomic.Int64
+	flags := make([]bool, len(hs))
+	parallel(len(hs), func(i int) {
+		n, pa := e.runHistory(hs[i])
+		evals.Add(int64(n))
+		flags[i] = pa
+		if pa {
+			cutShort.Add(1)
+		}
+	})
+	e.r.Evaluations += int(evals.Load())
+	for i, h := range hs {
+		e.r.Count("history:"+h.tag, 1)
+		if flags[i] {
+			e.r.Nontrivial(strings.Join(h.ops(), "|"))
+		}
+	}
+	e.r.Count("history:with-a-search-cut-short", int(cutShort.Load()))
+	if len(hs) > 0 {
+		e.r.Sample(map[string]any{"history": hs[len(hs)/2].ops()}, 4)
+	}
 }
 
 func indexOf(rs []*root, r *root) int {
